@@ -45,6 +45,12 @@ Weights = {weights}
 ZeroSel = {zerosel}
 DerCoefs = {dercoefs}
 DumpOn = {dump}
+SumSel = {sumsel}
+ReplSel = {replsel}
+SumMode = {summode}
+CompOps = {compops}
+PostOps = {postops}
+PostMax = {postmax}
 SPECIFICATION Spec
 {invs}
 """
@@ -67,14 +73,19 @@ def _set(s):
 class Job:
     """One TLC run."""
 
-    def __init__(self, key, maxops, leaves=ALL_LEAVES, weights=(1, 2, 3, 4, 5), zeros=(1, 2, 3, 4, 5, 6), dercoefs=(1, 3, 4), dump=True, invs=("RankOK",), simulate=None, seed=None, mutate=None):
+    def __init__(self, key, maxops, leaves=ALL_LEAVES, weights=(1, 2, 3, 4, 5), zeros=(1, 2, 3, 4, 5, 6), dercoefs=(1, 3, 4), dump=True, invs=("RankOK",), simulate=None, seed=None, mutate=None,
+                 sums=(), repls=(), summode=False, compops=("act",), postops=("act", "adj", "der", "repl"), postmax=0):
         self.key, self.maxops, self.leaves, self.weights, self.zeros, self.dercoefs = key, maxops, leaves, weights, zeros, dercoefs
+        self.sums, self.repls, self.summode, self.compops, self.postops, self.postmax = sums, repls, summode, compops, postops, postmax
         self.dump, self.invs, self.simulate, self.seed, self.mutate = dump, tuple(invs), simulate, seed, mutate
         self.res = None
 
     def run(self):
         invs = list(self.invs) + (["Dump"] if self.dump else [])
-        cfg = CFG.format(maxops=self.maxops, leafsel=_set(self.leaves), weights=_set(self.weights), zerosel=_set(self.zeros), dercoefs=_set(self.dercoefs), dump="TRUE" if self.dump else "FALSE", invs="\n".join("INVARIANT " + i for i in invs))
+        cfg = CFG.format(maxops=self.maxops, leafsel=_set(self.leaves), weights=_set(self.weights), zerosel=_set(self.zeros), dercoefs=_set(self.dercoefs), dump="TRUE" if self.dump else "FALSE",
+                         sumsel=_set(self.sums), replsel=_set(self.repls), summode="TRUE" if self.summode else "FALSE",
+                         compops="{" + ", ".join(f'"{o}"' for o in self.compops) + "}",
+                         postops="{" + ", ".join(f'"{o}"' for o in self.postops) + "}", postmax=self.postmax, invs="\n".join("INVARIANT " + i for i in invs))
         kw = dict(workers=4, heap="3g", timeout=1500, env={"JAVA_TOOL_OPTIONS": JAVA_OPTS})
         if self.simulate:
             kw.update(simulate=f"num={self.simulate}", depth=self.maxops + 1, seed=self.seed)
@@ -123,7 +134,12 @@ def split_prints(job):
 
 SV, SW = 1, 2
 DIM = {SV: 2, SW: 3}
-OPNAME = {1: "add", 2: "sub", 3: "neg", 4: "scale", 5: "act", 6: "adj", 7: "zero", 8: "der"}
+OPNAME = {1: "add", 2: "sub", 3: "neg", 4: "scale", 5: "act", 6: "adj", 7: "zero", 8: "der", 9: "wsum", 10: "repl"}
+
+
+def refs(op):
+    """Store indices of the operands of an operation [opcode, a, b, w, q, dir, z, c, w2, w3]."""
+    return tuple(i for i in (op[1], op[2], op[7] if len(op) > 7 else 0) if i)
 
 
 def _q(x):
@@ -196,6 +212,7 @@ class Env:
         self.coarg = {1: Coargument(self.dual[SV], 1), 2: Coargument(self.dual[SW], 1)}
         self.arg = {1: ufl.Argument(V, 1), 2: ufl.Argument(W, 1), 3: ufl.Argument(V, 0)}
         self.weights = [_q(w) for w in table["weights"]]
+        self.sumweights = [_q(w) for w in table["sumweights"]]
         self.zeros = table["zeros"]
         self.leaves = [(k, i) for _, k, i in table["leaves"]]
 
@@ -220,6 +237,13 @@ class Env:
 
     def weight(self, w):
         q = self.weights[w - 1]
+        return int(q) if q.denominator == 1 else float(q)
+
+    def sumweight(self, w):
+        """Weight of a component of a three-term sum (dyadic: exact as a float)."""
+        q = self.sumweights[w - 1]
+        if q.denominator != 1 and Fraction(float(q)) != q:
+            raise MachineryError(f"weight {q} is not exact as a float")
         return int(q) if q.denominator == 1 else float(q)
 
 
@@ -506,10 +530,16 @@ def apply_op(E, op, objs, variant):
     from ufl.classes import BaseForm, FormSum, ZeroBaseForm
 
     ufl = E.ufl
-    code, a, b, w, q, dr, z = op
+    code, a, b, w, q, dr, z = op[:7]
     x = objs[a - 1] if a else None
     y = objs[b - 1] if b else None
     ctor = variant == "ctor" and isinstance(x, BaseForm)
+    if code == 9:
+        t = objs[op[7] - 1]
+        w1, w2, w3 = E.sumweight(w), E.sumweight(op[8]), E.sumweight(op[9])
+        return FormSum((x, w1), (y, w2), (t, w3)) if variant == "ctor" else w1 * x + w2 * y + w3 * t
+    if code == 10:
+        return ufl.replace(x, {E.coef[q]: E.coef[dr]})
     if code == 1:
         return FormSum((x, 1), (y, 1)) if ctor else x + y
     if code == 2:
@@ -536,20 +566,22 @@ def apply_op(E, op, objs, variant):
 
 
 def op_sig(op, desc):
-    code, a, b, w, q, dr, z = op
+    code, a, b, w, q, dr, z = op[:7]
     name = OPNAME[code]
+    if code == 10:
+        name = f"repl[{'cof' if q >= 4 else 'coef'}]"
     if code == 4 and w == 1:
         name = "scale0"
     if code == 8:
         name = f"der[{'cof' if q >= 4 else 'coef'}{'>coef' if dr else ''}]"
     if code == 7:
         return "zero"
-    return name + "(" + ",".join(desc[i - 1] for i in (a, b) if i) + ")"
+    return name + "(" + ",".join(desc[i - 1] for i in refs(op)) + ")"
 
 
 def op_key(op, keys):
-    code, a, b, w, q, dr, z = op
-    return f"{code}.{w}.{q}.{dr}.{z}(" + ",".join(keys[i - 1] for i in (a, b) if i) + ")"
+    code, a, b, w, q, dr, z = op[:7]
+    return f"{code}.{w}.{q}.{dr}.{z}.{'.'.join(str(x) for x in op[8:])}(" + ",".join(keys[i - 1] for i in refs(op)) + ")"
 
 
 def real_args(E, o, aspect="arguments"):
@@ -711,12 +743,12 @@ def replay_program(E, asm, line, variant, status, counters, corrupt=None, only=N
         code, a, b = op[0], op[1], op[2]
         sig = op_sig(op, desc)
         key = variant + ":" + op_key(op, keys)
-        has_der = code == 8 or any(ders[i - 1] for i in (a, b) if i)
+        has_der = code == 8 or any(ders[i - 1] for i in refs(op))
         known = status.get(key)
         if known in ("bad", "skip"):
             counters["programs_on_failing_subprogram"] = counters.get("programs_on_failing_subprogram", 0) + 1
             return checks, STOPPED
-        if pred[0] == "bf" and any(not isinstance(objs[i - 1], BaseForm) for i in ((a, b) if code in (1, 2) else (a,)) if i):
+        if pred[0] == "bf" and any(not isinstance(objs[i - 1], BaseForm) for i in (refs(op) if code in (1, 2, 9) else (a,)) if i):
             # ufl represents some results outside the BaseForm classes (an element of V** is a
             # Coefficient: D_c action(c, f) = f; the adjoint of a Coargument is an Argument):
             # the BaseForm operators do not apply to them
@@ -731,7 +763,7 @@ def replay_program(E, asm, line, variant, status, counters, corrupt=None, only=N
             status[key] = "bad"
             return checks, (k, f"C28:raise:RecursionError:{sig}", f"{sig}: building the object recurses without bound")
         except Exception as e:  # noqa: BLE001
-            if any(contains_arityless(objs[i - 1]) for i in (a, b) if i):
+            if any(contains_arityless(objs[i - 1]) for i in refs(op)):
                 # an argument-less zero Form as operand: ufl cannot know its arity
                 status[key] = "skip"
                 counters["refused_arityless_operand"] = counters.get("refused_arityless_operand", 0) + 1
@@ -751,7 +783,7 @@ def replay_program(E, asm, line, variant, status, counters, corrupt=None, only=N
                 counters["refused_arityless_operand"] = counters.get("refused_arityless_operand", 0) + 1
                 return checks, STOPPED
             except Failure as f:
-                if f.aspect != "structure" and any(contains_arityless(objs[i - 1]) for i in (a, b) if i):
+                if f.aspect != "structure" and any(contains_arityless(objs[i - 1]) for i in refs(op)):
                     # an operand is an argument-less zero Form: ufl cannot know its arity
                     status[key] = "skip"
                     counters["refused_arityless_operand"] = counters.get("refused_arityless_operand", 0) + 1
@@ -784,7 +816,13 @@ def describe(E, ops, k):
     def r(i):
         if i <= nl:
             return names[tuple(E.leaves[i - 1])]
-        code, a, b, w, q, dr, z = ops[i - nl - 1]
+        code, a, b, w, q, dr, z = ops[i - nl - 1][:7]
+        if code == 9:
+            o = ops[i - nl - 1]
+            return "(" + " + ".join(f"{E.sumweights[wi - 1]}*{r(t)}" for wi, t in ((w, a), (o[8], b), (o[9], o[7]))) + ")"
+        if code == 10:
+            kq = "cof" if q >= 4 else "coef"
+            return f"replace({r(a)}, {{{names[(kq, q)]}: {names[(kq, dr)]}}})"
         if code == 1:
             return f"({r(a)} + {r(b)})"
         if code == 2:
@@ -823,7 +861,7 @@ def setup(table):
 
 
 def nontrivial(ops):
-    return len(ops) >= 2 or ops[0][0] in (5, 6, 7, 8) or (ops[0][0] == 4 and ops[0][3] == 1)
+    return len(ops) >= 2 or ops[0][0] in (5, 6, 7, 8, 9, 10) or (ops[0][0] == 4 and ops[0][3] == 1)
 
 
 def _work(raw):
@@ -840,7 +878,7 @@ def _work(raw):
         checks += c
         if f:
             fails.append({"line": line, "variant": "ops", "node": f[0], "fp": f[1], "what": f[2]})
-        elif f is None and any(o[0] in (1, 2, 3, 4) or (o[0] == 8 and o[5] == 0) for o in ops):
+        elif f is None and any(o[0] in (1, 2, 3, 4, 9) or (o[0] == 8 and o[5] == 0) for o in ops):
             # the same program through the FormSum constructor / an explicit direction argument
             c, f = replay_program(_E, _ASM, line, "ctor", _STATUS, counters)
             checks += c
